@@ -511,11 +511,54 @@ def install(E):
         micro = P_(E, st, a[2])
         name = E.fnobj.get(micro.obj)
         if name is None: raise EngineLimit('__kmpc_fork_call of unknown microtask')
-        g = st.alloc(4, 'stack', 'omp.gtid', 0); b = st.alloc(4, 'stack', 'omp.btid', 0)
-        fr.allocas.append(g); fr.allocas.append(b)
-        E.call(st, fr, name, [Ptr(g, 0), Ptr(b, 0)] + list(a[3:]), -1)
-        # region end is detected when the microtask frame returns: par_depth is decremented lazily by the next fork/critical query
-        st.frames[-1].va = ('omp_region',)
+        nworkers = st.env.get('omp_threads', 0)
+        def worker_frame(state, tid):
+            from symx import Frame
+            fc = E.code_for(name)
+            g = state.alloc(4, 'stack', 'omp.gtid%d' % tid, 0); b = state.alloc(4, 'stack', 'omp.btid%d' % tid, 0)
+            state.mem[g].data[0] = tid
+            nf = Frame(fc); nf.retslot = -1
+            args = [Ptr(g, 0), Ptr(b, 0)] + list(a[3:])
+            for i in range(len(fc.params)): nf.R[fc.params[i]] = args[i]
+            nf.va = ('omp_region',); nf.allocas += [g, b]
+            return nf
+        if nworkers < 2 or st.threads is not None:
+            # one worker runs the whole region (sequential schedule, iteration order optionally permuted)
+            nf = worker_frame(st, 0)
+            st.frames.append(nf)
+            return Ellipsis
+        # ---- pass 1 (on a scratch copy): run the region sequentially and record which iteration touches which bytes of the
+        # objects that existed before the region; bytes touched by two iterations with at least one write (outside critical
+        # sections) are the conflict set
+        rec = st.fork()
+        E.mt = True; E.mt_record = {}; E.mt_region_first_obj = rec.next_obj
+        rec.env = dict(rec.env); rec.env['omp_region_id'] = rec.env.get('omp_region_id', 0) + 1
+        depth = len(rec.frames) + 1
+        rec.frames.append(worker_frame(rec, 0))
+        try:
+            E.run_nested(rec, depth)
+        except (Violation, PathEnd, EngineLimit):
+            pass
+        log = E.mt_record; E.mt_record = None; E.mt = False
+        watch = {}
+        for oid, acc in log.items():
+            o = st.mem.get(oid)
+            if o is None or o.kind in ('func', 'FILE'): continue
+            for i, (it1, lo1, hi1, w1, c1) in enumerate(acc):
+                for (it2, lo2, hi2, w2, c2) in acc[i + 1:]:
+                    if it1 != it2 and it1 >= 0 and it2 >= 0 and (w1 or w2) and lo1 < hi2 and lo2 < hi1 and not (c1 and c2):
+                        watch.setdefault(oid, set()).add((max(lo1, lo2), min(hi1, hi2)))
+        E.mt_watch = {k: sorted(v) for k, v in watch.items()}
+        if E.mt_watch:
+            st.notes.append('parallel region: cross-iteration conflicts on %s' % ', '.join('%s[%d..%d)' % (st.mem[k].name, v[0][0], v[-1][1]) for k, v in list(E.mt_watch.items())[:4]))
+        E.race_objects = sorted({st.mem[k].name for k in E.mt_watch})
+        # ---- pass 2: two workers, iterations handed out dynamically, preemption at dispatch_next and before every access to a
+        # conflicting byte range (bounded number of preemptions per path)
+        st.env = dict(st.env); st.env['omp_region_id'] = st.env.get('omp_region_id', 0) + 1
+        st.master = st.frames
+        st.threads = [[[worker_frame(st, t)], False, None] for t in range(nworkers)]
+        st.cur = 0; st.frames = st.threads[0][0]; st.preempts = 0
+        E.mt = True
         return Ellipsis
     def in_parallel(st):
         return any(f.va == ('omp_region',) for f in st.frames)
@@ -524,10 +567,16 @@ def install(E):
     def _dinit(E, st, fr, a, d):
         lb, ub = a[3], a[4]
         if type(lb) is not int or type(ub) is not int: raise EngineLimit('symbolic OpenMP loop bounds')
-        bits = 64 if fr.fn.name.endswith('_8') else 32
         lo, hi = to_signed(lb, 32), to_signed(ub, 32)
         its = list(range(lo, hi + 1))
         st.env = dict(st.env)
+        if st.threads is not None:
+            # shared iteration queue of this loop instance: created by the first worker that arrives, reused by the others
+            key = 'omp_q:%d:%d' % (st.env.get('omp_region_id', 0), st.env.get('omp_loopno:%d' % st.cur, 0))
+            st.env['omp_loopno:%d' % st.cur] = st.env.get('omp_loopno:%d' % st.cur, 0) + 1
+            st.env['omp_curq:%d' % st.cur] = key
+            if key not in st.env: st.env[key] = tuple(its)
+            return 0
         if st.env.get('omp_permute') and 2 <= len(its) <= 3:
             import itertools
             perms = list(itertools.permutations(its))
@@ -538,10 +587,18 @@ def install(E):
         return 0
     @reg('__kmpc_dispatch_next_4', '__kmpc_dispatch_next_4u', '__kmpc_dispatch_next_8')
     def _dnext(E, st, fr, a, d):
-        its = st.env.get('omp_iters') or []
-        if not its: return 0
-        i = its[0]
-        st.env = dict(st.env); st.env['omp_iters'] = its[1:]
+        if st.threads is not None:
+            E.preempt_point(st)             # iteration boundary: the other worker may get the next iteration
+            key = st.env['omp_curq:%d' % st.cur]
+            its = st.env.get(key) or ()
+            if not its: return 0
+            i = its[0]
+            st.env = dict(st.env); st.env[key] = its[1:]; st.env['omp_cur_iter'] = i
+        else:
+            its = st.env.get('omp_iters') or []
+            if not its: return 0
+            i = its[0]
+            st.env = dict(st.env); st.env['omp_iters'] = its[1:]; st.env['omp_cur_iter'] = i
         E.store(st, P_(E, st, a[2]), 1 if len(its) == 1 else 0, 4)
         E.store(st, P_(E, st, a[3]), i & 0xffffffff, 4); E.store(st, P_(E, st, a[4]), i & 0xffffffff, 4); E.store(st, P_(E, st, a[5]), 1, 4)
         return 1
@@ -557,6 +614,9 @@ def install(E):
     @reg('funlockfile')
     def _funlock(E, st, fr, a, d):
         st.env = dict(st.env); st.env['in_critical'] = max(0, st.env.get('in_critical', 0) - 1); return 0
+    @reg('symx_omp_threads')
+    def _othreads(E, st, fr, a, d):
+        st.env = dict(st.env); st.env['omp_threads'] = int(a[0]); return 0
     @reg('symx_omp_permute')
     def _permute(E, st, fr, a, d):
         st.env = dict(st.env); st.env['omp_permute'] = int(a[0]); return 0
